@@ -401,6 +401,15 @@ impl Array4 {
                 byte >> 4
             }
         };
+        // update() decrements the count for every register at cur_min it raises
+        let actual_at_cur_min = (0..1u32 << lg_config_k)
+            .filter(|&slot| nibble(slot) == 0)
+            .count();
+        if actual_at_cur_min != num_at_cur_min as usize {
+            return Err(Error::deserial(format!(
+                "num_at_cur_min is {num_at_cur_min} but {actual_at_cur_min} registers are at cur_min"
+            )));
+        }
         let num_exceptions = (0..1u32 << lg_config_k)
             .filter(|&slot| nibble(slot) == AUX_TOKEN)
             .count();
